@@ -156,11 +156,23 @@ func GenLineFilter(t *rapid.T, s Schema) gen.Stage {
 	}
 	switch st.Op {
 	case "|=", "!=":
+		// Lines that end in a carriage return: the needle is often the end of one of them.
+		var crFrags []string
+		for _, f := range anchorFrags {
+			if strings.HasSuffix(f, "\r") {
+				crFrags = append(crFrags, f)
+			}
+		}
+		if len(crFrags) > 0 && rapid.IntRange(0, 2).Draw(t, "lf-cr") == 0 {
+			f := rapid.SampledFrom(crFrags).Draw(t, "lf-cr-frag")
+			st.Value = genBS(f[rapid.IntRange(0, len(f)-1).Draw(t, "lf-cr-from"):])
+			return st
+		}
 		switch rapid.IntRange(0, 7).Draw(t, "lf-needle") {
 		case 0:
 			st.Value = ""
 		case 1:
-			st.Value = genBS(rapid.SampledFrom([]string{"err", "e", " ", "\"", "=", "0", "10.0", "GET ", "{", ":", "statu"}).Draw(t, "lf-frag"))
+			st.Value = genBS(rapid.SampledFrom([]string{"err", "e", " ", "\"", "=", "0", "10.0", "GET ", "{", ":", "statu", "\r", "r\r", "\r\n"}).Draw(t, "lf-frag"))
 		case 2, 3, 4:
 			all := []string{}
 			for _, f := range s.Fields {
